@@ -34,3 +34,176 @@ func specBlindScalar(blind, context string) Mathint {
 //@ ensures err == nil ==> string(res) == edwards25519.EdMul(rInv, edwards25519.EdCanon(pk)) && fresh(res)
 //@ assigns none
 //@ end
+
+// ---------------------------------------------------------------------------
+// Signing and verification (RFC 8032), over the assumed kernel contracts of package edwards25519.
+
+// specEdK: the challenge scalar SHA-512(R || A || M) mod L.
+//
+//@ spec
+func specEdK(r, a, msg string) Mathint {
+	return edwards25519.LE(SHA512(r+a+msg)) % edwards25519.EdL()
+}
+
+// specEdVerify: what Verify decides (RFC 8032 section 5.1.7 without cofactor, as crypto/ed25519): a 64-byte
+// signature whose last byte has its top three bits clear, a decodable public key, S canonical (< L), and
+// R == [S]B - [k]A as encodings.
+//
+//@ spec
+func specEdVerify(pk, msg, sig string) bool {
+	return len(sig) == 64 && sig[63]&224 == 0 && edwards25519.EdDecOK(pk) && edwards25519.LE(sig[32:]) < edwards25519.EdL() &&
+		sig[:32] == edwards25519.EdDouble(specEdK(sig[:32], pk, msg), edwards25519.EdNeg(edwards25519.EdCanon(pk)), edwards25519.LE(sig[32:]))
+}
+
+//@ func Verify(publicKey PublicKey, message []byte, sig []byte) (ok bool)
+//@ props C03 C15 C16 C17
+//@ requires len(publicKey) == 32
+//@ ensures ok == specEdVerify(string(publicKey), string(message), string(sig))
+//@ assigns none
+//@ end
+
+// specEdSig: the signature R || S with r = SHA-512(prefix || M) mod L, R = [r]B, S = (k*s + r) mod L.
+//
+//@ spec
+func specEdSigR(prefix, msg string) string {
+	return edwards25519.EdBase(edwards25519.LE(SHA512(prefix+msg)) % edwards25519.EdL())
+}
+
+//@ spec
+func specEdSigS(pk, msg, prefix string, s Mathint) Mathint {
+	l := edwards25519.EdL()
+	r := edwards25519.LE(SHA512(prefix+msg)) % l
+	return (specEdK(specEdSigR(prefix, msg), pk, msg)*s + r) % l
+}
+
+//@ func signInternal(signature []byte, publicKey []byte, message []byte, prefix []byte, s *edwards25519.Scalar)
+//@ props C15 C16
+//@ safety C15
+//@ requires len(signature) == 64 && s != nil
+//@ let pk = string(publicKey)
+//@ let msg = string(message)
+//@ let pre = string(prefix)
+//@ let sv = edwards25519.ScVal(s)
+//@ ensures string(signature[:32]) == specEdSigR(pre, msg) && string(signature[32:]) == edwards25519.ScBytes(specEdSigS(pk, msg, pre, sv))
+//@ assigns signature[:]
+//@ end
+
+// specBlindPrefix: the nonce prefix of a blinded signature: SHA-512(seed)[32:] || SHA-512(blind || 00 || ctx)[32:].
+//
+//@ spec
+func specBlindPrefix(seed, blind, context string) string {
+	return SHA512(seed)[32:] + SHA512(blind + B1(0) + context)[32:]
+}
+
+// blindKeySign signs with the secret scalar clamp(SHA-512(seed)[:32]) * blinding factor mod L under the public
+// key [blinding factor]A, where A is the public key stored in the private key.
+//
+//@ func blindKeySign(signature []byte, privateKey []byte, blind []byte, message []byte, context []byte)
+//@ props C15 C16
+//@ safety C15
+//@ requires len(signature) == 64 && len(privateKey) == 64 && len(blind) == 32 && edwards25519.EdDecOK(string(privateKey[32:]))
+//@ let seed = string(privateKey[:32])
+//@ let a = edwards25519.EdClamp(SHA512(string(privateKey[:32]))[:32]) % edwards25519.EdL()
+//@ let rb = specBlindScalar(string(blind), string(context))
+//@ let pkB = edwards25519.EdMul(rb, edwards25519.EdCanon(string(privateKey[32:])))
+//@ let pre = specBlindPrefix(string(privateKey[:32]), string(blind), string(context))
+//@ let msg = string(message)
+//@ ensures string(signature[:32]) == specEdSigR(pre, msg)
+//@ ensures string(signature[32:]) == edwards25519.ScBytes(specEdSigS(pkB, msg, pre, (a*rb)%edwards25519.EdL()))
+//@ assigns signature[:]
+//@ end
+
+// Ed25519 correctness over the abstract group (ASSUMED, like the group laws: a theorem about the prime-order
+// subgroup generated by B, independent of this code): for A = [a]B, R = [r]B and S = (k*a + r) mod L the
+// verification equation [S]B - [k]A == R holds; scalar multiples of base multiples compose modulo L; base
+// multiples are canonical, decodable encodings.
+//
+//@ lemma trusted
+//@ ensures a >= 0 && r >= 0 && k >= 0 ==> edwards25519.EdDouble(k, edwards25519.EdNeg(edwards25519.EdBase(a)), (k*a+r)%edwards25519.EdL()) == edwards25519.EdBase(r)
+func axEdCorrect(a, r, k Mathint) {}
+
+//@ lemma trusted
+//@ ensures a >= 0 && b >= 0 ==> edwards25519.EdMul(b, edwards25519.EdBase(a)) == edwards25519.EdBase((a*b)%edwards25519.EdL())
+//@ ensures edwards25519.EdDecOK(edwards25519.EdBase(a)) && edwards25519.EdCanon(edwards25519.EdBase(a)) == edwards25519.EdBase(a)
+func axEdBaseMul(a, b Mathint) {}
+
+// C15: a signature made with the blinded key verifies under the blinded public key with this package's verifier
+// (whose decision is specEdVerify, the RFC 8032 equation), for every honest key pair (public key = [a]B with
+// a = clamp(SHA-512(seed)[:32])), blind, context and message.
+//
+//@ lemma props C15
+func lemmaEdBlindSignVerifies(priv PrivateKey, message, blind, context []byte) {
+	Vassume(len(priv) == 64 && len(blind) == 32)
+	l := edwards25519.EdL()
+	a := edwards25519.EdClamp(SHA512(string(priv[:32]))[:32]) % l
+	Vassume(string(priv[32:]) == edwards25519.EdBase(a)) // honest key pair
+	axEdBaseMul(a, 0)
+	pkB, err := BlindPublicKeyWithContext(PublicKey(priv[32:]), blind, context)
+	Vassert(err == nil)
+	rb := specBlindScalar(string(blind), string(context))
+	axEdBaseMul(a, rb)
+	Vassert(string(pkB) == edwards25519.EdBase((a*rb)%l))
+	sig := BlindKeySignWithContext(priv, message, blind, context)
+	pre := specBlindPrefix(string(priv[:32]), string(blind), string(context))
+	r := edwards25519.LE(SHA512(pre+string(message))) % l
+	k := specEdK(string(sig[:32]), string(pkB), string(message))
+	d := (a * rb) % l
+	axEdCorrect(d, r, k)
+	axEdBaseMul(d, 0)
+	Vassert(string(sig[:32]) == edwards25519.EdBase(r))
+	Vassert(edwards25519.LE(string(sig[32:])) == (k*d+r)%l)
+	Vassert(len(sig) == 64 && sig[63]&224 == 0)
+	Vassert(edwards25519.EdDecOK(string(pkB)) && edwards25519.EdCanon(string(pkB)) == string(pkB))
+	Vassert(string(sig[:32]) == edwards25519.EdDouble(k, edwards25519.EdNeg(edwards25519.EdCanon(string(pkB))), edwards25519.LE(string(sig[32:]))))
+	Vassert(specEdVerify(string(pkB), string(message), string(sig)))
+	ok := Verify(pkB, message, sig)
+	Vassert(ok)
+}
+
+// C15: unblinding inverts blinding, for every honest public key [a]B and every blind whose blinding factor is
+// invertible modulo L (all but the factor 0).
+//
+//@ lemma props C15
+func lemmaEdUnblindInvertsBlind(a Mathint, blind, context []byte) {
+	l := edwards25519.EdL()
+	Vassume(a >= 0 && a < l)
+	pk := edwards25519.EdBase(a)
+	rb := specBlindScalar(string(blind), string(context))
+	Vassume(rb != 0 && Invertible(rb, l))
+	axEdBaseMul(a, rb)
+	b, err := BlindPublicKeyWithContext(PublicKey(pk), blind, context)
+	Vassert(err == nil)
+	d := (a * rb) % l
+	Vassert(string(b) == edwards25519.EdBase(d))
+	axEdBaseMul(d, ModInv(rb, l))
+	u, err2 := UnblindPublicKeyWithContext(b, blind, context)
+	Vassert(err2 == nil)
+	Vassert(string(u) == edwards25519.EdBase((d*ModInv(rb, l))%l))
+	AxModCancel(a, rb, l)
+	Vassert(string(u) == pk)
+}
+
+// C15: two blindings commute.
+//
+//@ lemma props C15
+func lemmaEdBlindCommutes(a Mathint, blind1, ctx1, blind2, ctx2 []byte) {
+	l := edwards25519.EdL()
+	Vassume(a >= 0 && a < l)
+	pk := edwards25519.EdBase(a)
+	r1 := specBlindScalar(string(blind1), string(ctx1))
+	r2 := specBlindScalar(string(blind2), string(ctx2))
+	axEdBaseMul(a, r1)
+	axEdBaseMul(a, r2)
+	p1, e1 := BlindPublicKeyWithContext(PublicKey(pk), blind1, ctx1)
+	Vassert(e1 == nil && string(p1) == edwards25519.EdBase((a*r1)%l))
+	axEdBaseMul((a*r1)%l, r2)
+	p12, e12 := BlindPublicKeyWithContext(p1, blind2, ctx2)
+	Vassert(e12 == nil && string(p12) == edwards25519.EdBase((((a*r1)%l)*r2)%l))
+	p2, e2 := BlindPublicKeyWithContext(PublicKey(pk), blind2, ctx2)
+	Vassert(e2 == nil && string(p2) == edwards25519.EdBase((a*r2)%l))
+	axEdBaseMul((a*r2)%l, r1)
+	p21, e21 := BlindPublicKeyWithContext(p2, blind1, ctx1)
+	Vassert(e21 == nil && string(p21) == edwards25519.EdBase((((a*r2)%l)*r1)%l))
+	AxModMulSwap(a, r1, r2, l)
+	Vassert(string(p12) == string(p21))
+}
